@@ -3,15 +3,15 @@
 cd /repo || exit 1
 if [ -n "$(git status --porcelain)" ]; then echo "repo not clean"; exit 2; fi
 out=/verif/work/mutant_matrix.txt; : > $out
-for i in $(seq -w 1 20); do
-  id=C$i
-  if ! git apply --check /verif/seeded/$id/patch.diff 2>/dev/null; then echo "$id PATCH-DOES-NOT-APPLY" | tee -a $out; continue; fi
-  git apply /verif/seeded/$id/patch.diff
+for d in ${@:-$(ls -d /verif/seeded/C[0-9][0-9]* | xargs -n1 basename)}; do
+  id=${d:0:3}
+  if ! git apply --check /verif/seeded/$d/patch.diff 2>/dev/null; then echo "$d PATCH-DOES-NOT-APPLY" | tee -a $out; continue; fi
+  git apply /verif/seeded/$d/patch.diff
   r=$(/verif/check $id ${TIER:-quick} 2>&1 | grep -v conda)
   nv=$(echo "$r" | grep -c "^VIOLATION")
   nf=$(echo "$r" | grep "^VIOLATION" | grep -c "no-failing-input-found")
   sm=$(echo "$r" | grep "tier=" | sed 's/.*obligations=\([0-9]*\) discharged=\([0-9]*\).*/obligations=\1 discharged=\2/')
-  echo "$id violations=$nv without-input=$nf $sm" | tee -a $out
+  echo "$d violations=$nv without-input=$nf $sm" | tee -a $out
   git checkout -- .
 done
 cd /verif && tools/build.sh > /dev/null 2>&1
